@@ -26,15 +26,10 @@ func c17Check(t *verifrt.T, s []byte, flags int) {
 	out := AppendString(ctx, make([]byte, 0, 8), string(s))
 	ref := verifref.EscapeRef(s, html, norm)
 	t.ObserveBytes("out", out)
-	// recorded finding class: HTML escaping on, normalisation off leaves U+2028/9 raw
 	tok := verifref.StringLiteral(out)
 	t.Assert("literal-well-formed", tok.OK)
 	t.Assert("literal-ends-at-end", tok.End == len(out))
-	// recorded finding D27: HTML escaping on + normalisation off leaves U+2028/9 raw
-	ref2 := verifref.EscapeRefSep(s, html, norm, false)
-	kf := verifrt.And(html, !norm, verifref.BytesEq(out, ref2), !verifref.BytesEq(ref, ref2))
-	t.Known("D27-html-without-normalize-leaves-U+2028-raw", kf)
-	t.Assert("escape-equals-reference", verifrt.Or(kf, verifref.BytesEq(out, ref)))
+	t.Assert("escape-equals-reference", verifref.BytesEq(out, ref))
 	t.Cover("escaped-something", len(out) > len(s)+2)
 	t.Cover("plain", len(out) == len(s)+2)
 }
